@@ -56,6 +56,14 @@ func c04Queries() []query.Q {
 		&query.And{Children: []query.Q{meta("team", "^(red|blue)$"), &query.Branch{Pattern: "dev"}}},
 		ab,
 		&query.Branch{Pattern: "HEAD"},
+		// pairs of different filters that look alike (equal cardinality, equal printed form "count:2"):
+		// a per-shard cache of anything derived from them must not confuse them
+		query.NewRepoIDs(1, 2),
+		query.NewRepoIDs(2, 3),
+		query.NewRepoSet("alpha/one", "beta/two"),
+		query.NewRepoSet("beta/two", "alpha/three"),
+		query.NewSingleBranchesRepos("HEAD", 1, 2),
+		query.NewSingleBranchesRepos("HEAD", 2, 3),
 	}
 }
 
@@ -65,7 +73,7 @@ type c04op struct {
 }
 
 // c04MetaKeys lists the distinct cache keys each query of c04Queries creates.
-var c04MetaKeys = [][]string{{"red"}, {"blue"}, {"red"}, {"blue", "tier"}, {"red"}, {"redblue"}, nil, nil}
+var c04MetaKeys = [][]string{{"red"}, {"blue"}, {"red"}, {"blue", "tier"}, {"red"}, {"redblue"}, nil, nil, nil, nil, nil, nil, nil, nil}
 
 // pollCtx is a context whose Done() is a scheduling point of the explorer (one poll per
 // candidate document in indexData.Search).
@@ -231,7 +239,7 @@ func TestVerifC04(t *testing.T) {
 	type pair struct{ a, b []op }
 	var pairs []pair
 	one := func(i int) []op { return []op{{i, false}} }
-	for _, p := range [][2]int{{0, 0}, {0, 1}, {0, 2}, {2, 3}, {4, 0}, {5, 5}, {0, 6}} {
+	for _, p := range [][2]int{{0, 0}, {0, 1}, {0, 2}, {2, 3}, {4, 0}, {5, 5}, {0, 6}, {8, 9}} {
 		pairs = append(pairs, pair{one(p[0]), one(p[1])})
 	}
 	pairs = append(pairs, pair{[]op{{0, false}, {0, true}}, one(0)}, pair{[]op{{1, false}, {0, false}}, []op{{0, false}, {1, false}}})
